@@ -14,6 +14,7 @@ RULE = ("engines flags and cfg through a `go test -c` binary of package main: th
         "judged there). Non-trivial = a setting is present in two sources with different values; distinct = distinct op lines.")
 ASSUMPTIONS = ["the lexer model is exact for ASCII text; non-ASCII bytes are only fuzzed for panics/hangs",
                "numeric settings are generated in plain decimal without sign or leading zeros (strconv base-0 prefixes are not modelled)",
+               "app_timeout values are generated without decimal fractions (time.ParseDuration's float scaling of a fraction is not modelled)",
                "log levels are plain words (the subsystem=level;... syntax is not modelled)",
                "the harness replicates the control flow of configure() without its os.Exit paths (an exit is the outcome 'error')"]
 EXPLANATION = "Lexer, flag parser and three-pass resolution modelled as total functions; precedence theorem over all argument vectors and file contents; byte-exact comparison of the resolved configuration."
@@ -31,7 +32,9 @@ ALPH = "abcdefghijklmnopqrstuvwxyzABCXYZ0123456789/_.:-@"
 
 
 # app_timeout values: bare numbers (milliseconds), units, several groups, signs, and malformed ones
-TIMEOUTS = ["30", "0", "45s", "10m", "1h30m", "1m30s500ms", "250ms", "7us", "9ns", "-5s", "+5s", "''", '""', "abc", "5x", "s", "600000"]
+TIMEOUTS = ["30", "0", "45s", "10m", "1h30m", "1m30s500ms", "250ms", "7us", "9ns", "-5s", "+5s", "''", '""', "abc", "5x", "s", "600000",
+            # around the largest number of milliseconds / seconds / hours a Duration can hold, and far beyond uint64
+            "9223372036854", "9223372036855", "18446744073710", "99999999999999999999", "9223372036s", "9223372037s", "2562047h", "2562048h", "1e3"]
 
 
 def hx(s):
